@@ -103,16 +103,30 @@ def report(R, rec, prefix):
 
 
 # ------------------------------------------------------------------ end to end
-def e2e_module(order, calls):
-    """overloads in `order` returning 101, 102, ... by *signature identity* (sorted), callers c0.. for `calls`"""
+def e2e_module(order, calls, placement="after"):
+    """overloads in `order` returning 101, 102, ... by *signature identity* (sorted), callers c0.. for `calls`.
+    placement: the callers come after all overloads, before all of them, or interleaved with them (the outcome must not
+    depend on where a caller sits relative to the declarations either)"""
     ident = {sig: 101 + i for i, sig in enumerate(sorted(order, key=str))}
-    lines = []
+    decls = []
     for sig in order:
         ps = ", ".join("%s p%d" % (type_str(t), i) for i, t in enumerate(sig))
-        lines.append("function f (%s) -> int {\n  return %d;\n}" % (ps, ident[sig]))
+        decls.append("function f (%s) -> int {\n  return %d;\n}" % (ps, ident[sig]))
+    callers = []
     for k, args in enumerate(calls):
         ps = ", ".join("%s a%d" % (type_str(t), i) for i, t in enumerate(args))
-        lines.append("export function c%d (%s) -> int {\n  return f(%s);\n}" % (k, ps, ", ".join("a%d" % i for i in range(len(args)))))
+        callers.append("export function c%d (%s) -> int {\n  return f(%s);\n}" % (k, ps, ", ".join("a%d" % i for i in range(len(args)))))
+    if placement == "before":
+        lines = callers + decls
+    elif placement == "between":
+        lines = []
+        for i in range(max(len(decls), len(callers))):
+            if i < len(callers):
+                lines.append(callers[i])
+            if i < len(decls):
+                lines.append(decls[i])
+    else:
+        lines = decls + callers
     return "\n".join(lines) + "\n", ident
 
 
@@ -137,7 +151,7 @@ def run_e2e_set(R, sigset, rng):
             todo.append(([a], False))
         while todo:
             calls, expect_ok = todo.pop()
-            src, ident = e2e_module(order, calls)
+            src, ident = e2e_module(order, calls, rng.choice(["after", "before", "between"]))
             out = nslapi.compile_source(src)
             R.evaluations += 1
             R.count("e2e_modules")
@@ -234,7 +248,7 @@ def run_shard(tier, seed, shard, n, R):
         sigset = tuple(rng.sample(pool, min(size, len(pool))))
         run_e2e_set(R, sigset, rng)
         if j == 0:
-            R.sample({"overloads": [tuple(map(type_str, s)) for s in sigset], "module": e2e_module(sigset, [sigset[0]])[0]})
+            R.sample({"overloads": [tuple(map(type_str, s)) for s in sigset], "module": e2e_module(sigset, [sigset[0]], "between")[0]})
     R.count("contract_evaluations_e2e", rec.evaluations - before)
     report(R, rec, "compile")
     R.count("contract_judged", rec.judged)
